@@ -11,6 +11,10 @@ FAMILIES = {
     "fold": ("MC_Fold", None),
     "forwhile": ("MC_ForWhile", None),
     "static": ("MC_Static", None),
+    "witness": ("MC_Witness", None),
+    "params": ("MC_Params", None),
+    "prune": ("MC_Prune", None),
+    "debug": ("MC_Debug", None),
 }
 
 
@@ -51,8 +55,12 @@ def issue_property(case, issue, all_issues):
         if what == "panic":
             return "C06"
         return "C04"
-    if at == "parameters":
+    if at in ("parameters", "argmap", "alt"):
         return "C12"
+    if at == "map":
+        return "C05"
+    if at == "debug":
+        return "C14"
     if at in ("instantiate", "commit"):
         if case.get("inst") == "err" or (what == "err" and "rgument" in str(issue.get("msg", "")) and case.get("args_kind")):
             return "C12"
@@ -99,7 +107,20 @@ def describe(issue):
         ("run", "exec_panic"): "the Bit Machine panicked",
         ("run", "exec_limit"): "the Bit Machine refused the program",
         ("run", "verdict"): "verdict differs from the source semantics",
+        ("map", "satisfy_accepts_ill_typed"): "satisfy accepted a witness map with a value of another type than declared",
+        ("map", "satisfy_rejects_well_typed"): "satisfy rejected a witness map whose declared names are all correctly typed",
+        ("map", "satisfy_panic"): "satisfy panicked",
+        ("map", "exec_panic"): "an accepted witness map made the Bit Machine panic",
+        ("map", "delivery"): "a witness value did not reach the expression that names it",
+        ("map", "decode"): "the encoding of an accepted witness map does not decode",
+        ("argmap", "instantiate_rejects_consistent"): "instantiate rejected arguments consistent with parameters()",
+        ("argmap", "instantiate_accepts_inconsistent"): "instantiate did not report a missing / mistyped argument",
+        ("alt", "verdict"): "instantiated program and literally substituted program behave differently",
+        ("alt", "rejected"): "the literally substituted program is rejected",
+        ("alt", "panic"): "compiling the literally substituted program panicked",
     }
+    if at in ("map", "argmap"):
+        where = " [map " + json.dumps(issue.get("entries"))[:300] + "]"
     return f"{table.get((at, what), at + '/' + str(what))}{where}: {msg}"
 
 
@@ -144,7 +165,22 @@ def prog_samples(cases, results, n=3):
     return res
 
 
-def run_prog_property(prop, fams, tier, seed, rule, assumptions, select=None, extra_cov=None, verdict_fams=()):
+def layout_variants(cases, fams, seps):
+    """Each case of the given families once per token separator (layout variant)."""
+    out = []
+    for c in cases:
+        if c.get("family") in fams:
+            for s in seps:
+                d = dict(c)
+                d["sep"] = s
+                out.append(d)
+        else:
+            out.append(c)
+    return out
+
+
+def run_prog_property(prop, fams, tier, seed, rule, assumptions, select=None, extra_cov=None, verdict_fams=(),
+                      expand=None):
     """The common shape of a check whose cases are `prog` behaviours of one or more families.
     verdict_fams: families in which a wrong verdict contradicts `prop` itself (default: C01)."""
     out = Outcome(prop, tier, seed, "model_checking")
@@ -160,6 +196,8 @@ def run_prog_property(prop, fams, tier, seed, rule, assumptions, select=None, ex
         stats.append(st)
     if not all_cases:
         raise ToolError(f"no behaviours generated for {prop}")
+    if expand:
+        all_cases = expand(all_cases)
     results = run_replay(prop, all_cases)
     judge(out, prop, all_cases, results)
     runs = sum(r.get("runs", 0) for r in results.values())
